@@ -60,6 +60,22 @@ pub fn run(ctx: &'static Ctx) {
         if mode == 1 { let cut = ["\"domain\":{},", ",\"domain\":{}"]; for c in cut { if text.contains(c) { text = text.replacen(c, "", 1); break; } } }
         check_json(ctx, P, "ill-formed-type-without-domain-value", i, &format!("ill-formed,domain-value={}", ["empty", "absent", "null"][mode as usize]), &text, (refmodel::json::Class::Reject, "malformed EIP712Domain type".into()));
     });
+    // member names that contain the syntax of encodeType itself (comma, space, parentheses): a member whose NAME spells
+    // "name,string version" makes the type's encoding read like a well-formed selection, but it is one unknown member; also
+    // names with stray blanks, empty names, a type written into the name. With a matching key in the domain value.
+    let fields = refmodel::eip712::DOMAIN_FIELDS;
+    let mut crafted: Vec<(String, String, Vec<(String, String)>)> = Vec::new(); // (label, first member's crafted name, rest of members)
+    for i in 0..5 { for j in i + 1..5 { crafted.push(("merges-two".into(), format!("{},{} {}", fields[i].0, fields[j].1, fields[j].0), vec![]));
+        for k in j + 1..5 { crafted.push(("merges-three".into(), format!("{},{} {},{} {}", fields[i].0, fields[j].1, fields[j].0, fields[k].1, fields[k].0), vec![])); crafted.push(("merges-two-then-standard".into(), format!("{},{} {}", fields[i].0, fields[j].1, fields[j].0), vec![(fields[k].0.to_string(), fields[k].1.to_string())])); } } }
+    for n in ["name)", "(name", "name ", " name", "", "name,", ",name", "string name", "name\u{0}", "name\t", "EIP712Domain(string name", "name)EIP712Domain(string version"] { crafted.push(("stray-syntax".into(), n.to_string(), vec![])); }
+    ctx.sweep("member-names-with-encoding-syntax", "domain types whose first member's NAME contains the syntax of encodeType (a comma followed by the type and name of later standard fields, parentheses, blanks, an empty name), alone and followed by a standard field, with the same key in the domain value: one unknown member, refused", crafted.len() as u64, |i| {
+        let (label, name, rest) = &crafted[i as usize]; let first_ty = fields.iter().find(|(n, _)| name.starts_with(n)).map(|f| f.1).unwrap_or("string");
+        let mut members = vec![(name.clone(), first_ty.to_string())]; members.extend(rest.iter().cloned());
+        let mut d = doc_for(&[(0, 0)]);
+        for t in d.types.iter_mut() { if t.0 == "EIP712Domain" { t.1 = members.clone(); } }
+        d.domain = J::Obj(members.iter().map(|(n, t)| (n.clone(), value_for(t))).collect());
+        check_doc(ctx, P, "member-names-with-encoding-syntax", i, &format!("domain-member-name:{label}"), &d);
+    });
     let wf = ctx.classes_matching(|c| c.ends_with(":accepted")); let rj = ctx.classes_matching(|c| c.ends_with(":rejected"));
     ctx.guard_check("well-formed and malformed domains both seen", wf > 0 && rj > 0, format!("{wf} accepting classes, {rj} rejecting classes"));
     crate::hist::histories(ctx, P, "document-histories-c20", "TypedData from JSON and its three digests, a sequence on one fresh thread", crate::hist::td_ops());
